@@ -130,25 +130,25 @@ func tcw(runs, chunk, budget, perRun int) tierCfg {
 }
 
 var props = map[string]propCfg{
-	"C01": {Quick: tc(4000, 100, 60), Thorough: tc(300000, 300, 1200)},
-	"C02": {Quick: tcw(6000, 100, 60, 8), Thorough: tcw(500000, 300, 1500, 8)},
+	"C01": {Quick: tc(40000, 200, 60), Thorough: tc(300000, 300, 1200)},
+	"C02": {Quick: tcw(40000, 200, 60, 8), Thorough: tcw(500000, 300, 1500, 8)},
 	"C03": {Quick: tc(2000, 100, 45), Thorough: tc(150000, 250, 900)},
-	"C17": {Quick: tc(1500, 50, 60), Thorough: tc(60000, 100, 900)},
-	"C19": {Quick: tc(6000, 200, 45), Thorough: tc(400000, 500, 900)},
-	"C18": {Quick: tcw(30000, 500, 45, 6), Thorough: tcw(400000, 500, 900, 6)},
+	"C17": {Quick: tc(15000, 100, 60), Thorough: tc(60000, 100, 900)},
+	"C19": {Quick: tc(40000, 200, 60), Thorough: tc(400000, 500, 900)},
+	"C18": {Quick: tcw(100000, 500, 60, 6), Thorough: tcw(400000, 500, 900, 6)},
 	"C04": {Quick: tc(2500, 100, 60), Thorough: tc(150000, 200, 900), Race: true},
 	"C05": {Quick: tc(5000, 200, 45), Thorough: tc(300000, 500, 900)},
-	"C06": {Quick: tc(5000, 200, 45), Thorough: tc(300000, 500, 900)},
-	"C07": {Quick: tc(6000, 200, 45), Thorough: tc(300000, 500, 900)},
+	"C06": {Quick: tc(30000, 200, 60), Thorough: tc(300000, 500, 900)},
+	"C07": {Quick: tc(40000, 200, 60), Thorough: tc(300000, 500, 900)},
 	"C08": {Quick: tc(5000, 200, 45), Thorough: tc(300000, 500, 900)},
-	"C09": {Quick: tc(5000, 200, 45), Thorough: tc(300000, 500, 900)},
+	"C09": {Quick: tc(30000, 200, 60), Thorough: tc(300000, 500, 900)},
 	"C10": {Quick: tc(15000, 100, 120), Thorough: tc(300000, 100, 1200), Race: true},
-	"C11": {Quick: tc(4000, 100, 60), Thorough: tc(300000, 300, 1200)},
+	"C11": {Quick: tc(40000, 200, 60), Thorough: tc(300000, 300, 1200)},
 	"C12": {Quick: tcw(102, 1, 150, 150), Thorough: tcw(204, 1, 3000, 1500)},
 	"C13": {Quick: tc(4000, 50, 90), Thorough: tc(60000, 100, 900), Race: true},
-	"C14": {Quick: tc(4000, 200, 45), Thorough: tc(200000, 500, 900)},
+	"C14": {Quick: tc(20000, 200, 60), Thorough: tc(200000, 500, 900)},
 	"C15": {Quick: tc(4000, 100, 45), Thorough: tc(40000, 100, 900), Race: true},
-	"C16": {Quick: tc(3000, 100, 60), Thorough: tc(300000, 300, 900)},
+	"C16": {Quick: tc(20000, 200, 90), Thorough: tc(300000, 300, 900)},
 }
 
 func fatalf(f string, a ...any) {
